@@ -12,41 +12,59 @@ SHARD = 150
 PER_CASE_TIMEOUT = 120
 RULE = ("(static, exhaustive) one case per deviation the ast extractor finds in the class table of "
         "EVERY estimator class of sktime/**/*.py (constructor not verbatim / guard not first / "
-        "parameter reassigned): known ones match an open finding, a new one is a violation; "
-        "(dynamic, per runnable class) p_ctor: one case per (class, constructor parameter) passing a "
-        "unique sentinel and reading it back through get_params; p_params: get_params keys = "
-        "signature, set_params(**get_params()) and clone reproduce the parameters, unknown names "
-        "rejected, fresh and cloned not fitted; p_apply: one case per (class, apply-type method): "
-        "called on a fresh instance and on a clone of a fitted instance, NotFittedError expected; "
-        "p_fit: fit returns self, sets is_fitted, leaves every parameter the same object with the "
-        "same content; (model, in Coq) random compositions of depth <= 3 over NaiveForecaster / "
-        "PolynomialTrendForecaster / HampelFilter / Detrender leaves with EnsembleForecaster, "
+        "parameter reassigned by fit or an apply-type method): known ones match an open finding, a new "
+        "one is a violation; (dynamic, per runnable class) p_ctor: one case per (class, constructor "
+        "parameter): six probe values (a unique sentinel object, np.int64, float, str, None, []) are "
+        "passed and the attribute of that name must be the very object passed; p_params, one case per "
+        "aspect: get (keys = signature, arguments returned, deep contains shallow), roundtrip "
+        "(set_params(**get_params())), clone (equal parameters, no shared mutable parameter object), "
+        "unknown (unknown name -> ValueError), flag (fresh and cloned not fitted); p_apply: one case "
+        "per (class, apply-type method, phase): called with valid arguments on a fresh instance / on a "
+        "clone of a fitted instance, NotFittedError expected and the flag unchanged (update_predict both "
+        "with cv=None and with a splitter); p_fit: fit returns self, sets is_fitted, leaves every "
+        "parameter unchanged (same object, or equal immutable value, or a copied list of the same "
+        "objects) and unmutated; (model, in Coq) random compositions of depth <= 3 over NaiveForecaster "
+        "/ PolynomialTrendForecaster / HampelFilter / Detrender leaves with EnsembleForecaster, "
         "MultiplexForecaster, StackingForecaster, TransformedTargetForecaster, "
         "ForecastingGridSearchCV, ColumnEnsembleClassifier, FeatureUnion: get_params(deep), "
         "set_params with whole-list / component / nested keys in random key order (incl. unknown "
-        "names at random depth), clone, fit/apply/clone histories. non-trivial = static deviation, or "
-        "a dynamic case that exercised the real object (not skipped), or a tree of depth >= 2; "
-        "distinct = distinct canonical JSON case")
+        "names at random depth), set_params(**get_params(deep=True)), clone (no shared object at any "
+        "depth), fit/apply/clone histories (fixed short ones for every method + random). non-trivial = "
+        "static deviation, or a dynamic case that exercised the real object (not skipped), or a tree of "
+        "depth >= 2; distinct = distinct canonical JSON case")
 TRUSTED = [
     "translator/classtable.py (Python ast fact extractor, fail-closed: unresolvable base class, "
     "unknown external base, dynamic setattr, unknown statement kinds raise): class discovery by "
     "import resolution across the package, C3 MRO, constructor store classification, path-sensitive "
     "guard-before-state analysis. It is a syntactic approximation of the runtime behaviour; the "
     "dynamic cases p_ctor / p_apply / p_fit re-check every runnable class on the real objects",
+    "coq/C04/Known.v identity_validators: check_sp (pinned by a hash of its source, so an edit breaks "
+    "the Bridge theorem) and scikit-learn 0.24's _check_weights (read, not importable here) return "
+    "their argument unchanged or raise",
+    "coq/C04/Known.v benign_guard: OnlineEnsembleForecaster.update_predict touches only the cutoff "
+    "(restored) before the nested update() raises NotFittedError; confirmed on the real object by the "
+    "p_apply cases of every run (a skip is reported)",
     "scikit-learn's own BaseEstimator.get_params/set_params/clone are modelled (Model.v) and tied by "
     "correspondence only; scikit-learn constructors are assumed to store keyword arguments verbatim",
     "keys are modelled as paths: the harness encoder splits 'a__b' on '__' (str.partition chain)",
 ]
 MODELLED = [
-    "object identity / aliasing: the model is a value tree; in-place mutation shared between aliases "
-    "of one estimator object is outside the model (generated trees never share objects)",
+    "object identity / aliasing: the model is a value tree (clone_est is provably the identity on "
+    "values); in-place mutation shared between aliases of one estimator object is outside the model "
+    "(generated trees never share objects; sharing between an estimator and its clone is checked on "
+    "the real objects by the oracle only)",
     "a failing set_params may leave the real object partially updated; the model only says Err",
-    "a failing fit is modelled as leaving the fitted flag unchanged (some classes reset it first)",
+    "a failing fit of an UNFITTED object leaves it unfitted (model and oracle); a failing re-fit of a "
+    "fitted object is not generated and not judged: the property is silent and classes differ "
+    "(TransformedTargetForecaster resets the flag first)",
     "ColumnEnsembleClassifier: the column of each (name, estimator, column) triple is not modelled "
-    "(kept positionally by the real setter); 'estimators=' together with 'name__param' in one call "
-    "and 'drop'/None components are not generated",
+    "(kept positionally by the real setter); its private list key `_estimators` is modelled "
+    "faithfully (akey <> parameter), which is the open finding about the documented order; "
+    "'drop'/None components are not generated",
     "guard analysis treats every non-parameter attribute of self as fitted state and source order "
     "within an expression as evaluation order",
+    "the fitted-state machine (Model.v step/run) is a hand model: guard first, flag set at the end of "
+    "a successful fit, clone -> unfitted; tied by the history cases only",
 ]
 NOT_RUNNABLE = [
     "pmdarima / tbats / fbprophet / hcrystalball / tsfresh / stumpy / catch22 not installed: ARIMA, "
@@ -381,12 +399,20 @@ def gen_cases(rng, tier):
                                                                    ["clone"], ["apply", m]]})
         for _ in range(3 * per):
             evs = []
+            fitted = False
             for _ in range(rng.randint(2, 7)):
                 r = rng.random()
                 if r < 0.25:
-                    evs.append(["fit", rng.random() < 0.75])
+                    ok = rng.random() < 0.75
+                    if not ok and fitted:
+                        # a failing RE-fit of a fitted object: the property is silent about the flag
+                        # afterwards (some classes reset it first) - not generated
+                        ok = True
+                    fitted = fitted or ok
+                    evs.append(["fit", ok])
                 elif r < 0.45:
                     evs.append(["clone"])
+                    fitted = False
                 else:
                     evs.append(["apply", rng.choice(hist_classes[c])])
             cases.append({"kind": "tree_hist", "cls": c, "events": evs})
@@ -1220,6 +1246,8 @@ def oracle(case, out):
             return "clone-is-fitted"
         return None
     if k == "tree_hist":
+        if _silent_history(case["events"]):
+            return None
         fitted = False
         for ev, o in zip(case["events"], out["outcomes"]):
             if ev[0] == "fit":
@@ -1244,6 +1272,20 @@ def oracle(case, out):
             return "names-validated: %s accepted=%s" % (ns, out["accepted"])
         return None
     return "unknown-kind"
+
+
+def _silent_history(events):
+    """A failing fit of an already fitted object: the property says nothing about the flag afterwards
+    (can arise from shrinking only; never generated)."""
+    fitted = False
+    for ev in events:
+        if ev[0] == "fit":
+            if not ev[1] and fitted:
+                return True
+            fitted = fitted or ev[1]
+        elif ev[0] == "clone":
+            fitted = False
+    return False
 
 
 def _normv(v):
@@ -1413,10 +1455,12 @@ def coq_case(case, out):
     if k == "tree_setget":
         # the dict is the implementation's own get_params(deep=True), in its own key order
         impl = "None" if "err" in out else "(Some %s)" % _cest(out["after"])
-        return "CSet %s %s %s" % (_cest(_norm(case["tree"])), _ckvs(out["dict"]), impl)
+        return "CSetGet %s %s %s" % (_cest(_norm(case["tree"])), _ckvs(out["dict"]), impl)
     if k == "tree_clone":
         return "CClone %s %s" % (_cest(_norm(case["tree"])), _cest(out["clone"]))
     if k == "tree_hist":
+        if _silent_history(case["events"]):
+            return None
         oc = [o for o in out["outcomes"]]
         evs = [e for e, o in zip(case["events"], oc) if o != "absent"]
         oc = [o for o in oc if o != "absent"]
